@@ -59,7 +59,7 @@ EXTRA = {
     "C01": " Also: a.or_not() driven through its IterParser interface for every K01 grammar a (alone and chained); one_of / none_of / just over every Seq / OrderedSeq container flavour (single token, &T, &[T], [T; N], &[T; N], Vec, LinkedList, HashSet, BTreeSet, &str, String, Range, RangeInclusive, RangeFrom) for all subsets / sequences / ranges over five letters, char and u8.",
     "C02": " Also: collect() into every Container flavour (Vec, VecDeque, LinkedList, String, HashSet, BTreeSet, maps, Box / Cell / RefCell of a container, usize, ()) against the Vec item sequence; or_not and iterable chains as item sources.",
     "C06": " Also: the context class (just(..).configure(seq), configured repetitions) with Rich errors; the failure of a nested parse merged by the furthest-wins rule.",
-    "C07": " Also: K07 on IoInput and BoxedStream; the cursor machine on 13 input kinds; Pratt fold-callback spans.",
+    "C07": " Also: the span handed to try_map on the successful path; K07 with EmptyErr and Cheap (spans do not depend on the error type); K07 on IoInput and BoxedStream; the cursor machine on 13 input kinds; Pratt fold-callback spans.",
     "C09": " Also: the same tables with binding powers spread over the whole u16 range (order-isomorphic relabelling), and tables whose operator symbols share a prefix (+ / ++).",
     "C12": " Also: the recursion handle wrapped (boxed(), Rc, Box, declared and boxed, mutually through boxed handles) inside its own definition: same language, and no overflow at the depth points.",
     "C19": " Also: long runs (inputs up to 11/13 tokens) through every sink, tracked and zero-sized values; every ContainerExactly flavour.",
@@ -74,7 +74,7 @@ EXTRA = {
     "C16": " Also: lazy().nested_in; recover_with nodes; recursive token-tree grammars with memoized() vs plain on all token trees.",
     "C17": " Also: secondary errors raised under as_context labels whose labelled parser later fails (complete error list with context frames).",
     "C18": " Also: closures whose verdict depends on the inspector state they see (try_map_with), inside look-aheads, options, choices and recoveries; padded(); the cursor machine.",
-    "C20": " Also: token-pull budgets for 22 scaled grammar families incl. recovery on runs of unclosed delimiters (with a pull limit); counts of usize::MAX / 4 from the context; primitive matchers over every container flavour incl. unbounded ranges (one known finding: one_of(lo..) with Rich panics on a rejected token, see known_findings.json).",
+    "C20": " Also: token-pull budgets for 22 scaled grammar families incl. recovery on runs of unclosed delimiters (with a pull limit); counts of usize::MAX / 4 from the context; the text parsers on &Graphemes; errors replayed from the memo table under as_context (bounded number of context frames); primitive matchers over every container flavour incl. unbounded ranges (one known finding: one_of(lo..) with Rich panics on a rejected token, see known_findings.json).",
 }
 
 
